@@ -441,6 +441,12 @@ func checkC11(r *core.Run) {
 		{"func-decl-then-redefinition", []string{"func fd() int { return 1 }", "func fd() int { return 2 }", "fd()"}, "2|"},
 		{"multi-value-var-from-later-func", []string{"var m1, m2 = two()\nfunc two() (int, int) { return 4, 5 }", "m1 + m2"}, "9|"},
 		{"var-pair-depends-on-each-other", []string{"var q1, q2 = q2 + 1, 5", "q1"}, "6|"},
+		// var statements among interactive statements: the initialiser runs where the statement stands
+		{"var-stmt-after-statement", []string{"n := 3", "n += 1\nvar y = n * 2\ny"}, "8|"},
+		{"var-stmt-in-loop-block-resets", []string{"acc := 0", "for i := 0; i < 3; i++ { var t int; t += i + 1; acc += t * 10 }", "acc"}, "60|"},
+		{"var-stmt-with-initialiser-in-block", []string{"k := 2", "if k > 1 { var z = k * 5; k = z }", "k"}, "10|"},
+		{"var-stmt-zero-value-after-use", []string{"s := []int{}", "s = append(s, 1)\nvar u []int\nu = append(u, len(s))\nu[0]"}, "1|"},
+		{"var-stmt-typed-in-nested-blocks", []string{"tot := 0", "for i := 0; i < 2; i++ { for j := 0; j < 2; j++ { var w int = i; w += j; tot += w } }", "tot"}, "4|"},
 		{"var-through-function-body", []string{"var w1 = fw()\nfunc fw() int { return w2 + 1 }\nvar w2 = 5", "w1"}, "6|"},
 	}
 	var mitems []core.BatchItem
